@@ -1,5 +1,5 @@
 (* C11 — Evolution strategies keep a valid search distribution and are rank-invariant.
-   Only statements + `exact`; proofs in C11Proofs.v / C11MoreProofs.v / C11SimplexProofs.v / C11CemProofs.v / C11RunProofs.v (over Q or
+   Only statements + `exact`; proofs in C11Proofs.v / C11MoreProofs.v / C11SimplexProofs.v / C11SimplexBestProofs.v / C11CemProofs.v / C11RunProofs.v (over Q or
    over every arithmetic, axiom-free) and C11CholProofs.v (over R: the Cholesky-factor models take square roots; only the axioms of the
    standard library's real numbers), executable model in C11Model.v and C11DirectModel.v.
 
@@ -47,7 +47,7 @@
                                       x^T C' x identity per branch, determinant factor (1+r)^n (1 - r/(1+r)|z|^2) of the active update;
      * C11_vd_sample_covariance       VDCMA::createSample: y = (I + a vn vn^T) z has |y|^2 = |z|^2 + (v.z)^2, x = m + sigma D*y.
      over Q / over every arithmetic, closed under the global context (C11DirectModel.v: the objective is an ORACLE, every random draw an
-       explicit argument; proofs in C11SimplexProofs.v, C11CemProofs.v, C11RunProofs.v)
+       explicit argument; proofs in C11SimplexProofs.v, C11SimplexBestProofs.v, C11CemProofs.v, C11RunProofs.v)
      * C11_simplex_reports_objective  SimplexDownhill as coded (init, sort, reflection 2x0-w / expansion 3x0-2w / contraction (x0+w)/2 / reduction
                                       (b+v)/2 with the coded comparisons, m_best tracking): after init and every number of steps the reported
                                       value IS the oracle at the reported point and every vertex carries its oracle value — PROVIDED some
@@ -59,6 +59,8 @@
                                       the best vertex value (the value of the first vertex after the sort = the least vertex value) never
                                       increases from step to step resp. along a run, for every oracle and every state with >= 2 vertices;
                                       the reported value never increases;
+     * C11_simplex_reported_is_best_vertex   the reported solution is the FIRST vertex of the sorted simplex (a vertex, with the least vertex
+                                      value) after init and every number of steps (dimension >= 1, same proviso on the literal);
      * C11_simplex_rank_invariant / _rescaling   two oracles that order every pair of points identically (and compare identically with the
                                       literal) visit exactly the same simplices and report the same point, for every start and number of
                                       steps; in particular phi o f for strictly increasing phi.  No other use of values exists in step();
@@ -76,8 +78,7 @@
                                       cmsa_update): order-equivalent oracles give the SAME state (mean, sigma, covariance / factor, paths) after
                                       every sequence of draws, for every arithmetic incl. the float instantiation.
    STILL NOT PROVED: that D of VDCMA stays positive along a run (it does iff meanS > -1, a property of the sample); full rank of the
-     rank-mu part in the CMA corner (probabilistic); convergence; the symmetric eigendecomposition (an oracle [eig] of cma_step); that the
-     reported solution of SimplexDownhill is a best vertex of the simplex (monitored); floating-point rounding; NaN objective values
+     rank-mu part in the CMA corner (probabilistic); convergence; the symmetric eigendecomposition (an oracle [eig] of cma_step); floating-point rounding; NaN objective values
      (comparisons are modelled with the strict order only).
    COMPARED on every run (tools/c11.py, float instantiation of the SAME model functions, 1e-10, on states/offspring recorded from the
      real optimizers): cma_update = CMA::updatePopulation; cma_step (offspring sampled by the model from the recorded draws and eigen-pairs) =
@@ -89,10 +90,9 @@
      cem_sample = the sampling of CrossEntropyMethod::step on the draws read back; at 1e-12: cem_select_update on the recorded samples and
      cem_step on the draws = mean / variance / reported solution / exception of CrossEntropyMethod::step.
    ONLY MONITORED: eigendecomposition; seed determinism; rank invariance of the real optimizers on f vs 4f (RUN streams; for SimplexDownhill
-     additionally on whole simplices, NM streams; for CrossEntropyMethod on the elite, XCOR streams); convergence on the sphere; D > 0 in VDCMA;
-     reported solution of SimplexDownhill = a best vertex. *)
+     additionally on whole simplices, NM streams; for CrossEntropyMethod on the elite, XCOR streams); convergence on the sphere; D > 0 in VDCMA. *)
 From Coq Require Import List QArith Lqa Lia Permutation Sorted Reals.
-From SharkV Require Import C11Model C11Proofs C11MoreProofs C11CholProofs C11DirectModel C11SimplexProofs C11CemProofs C11RunProofs.
+From SharkV Require Import C11Model C11Proofs C11MoreProofs C11CholProofs C11DirectModel C11SimplexProofs C11SimplexBestProofs C11CemProofs C11RunProofs.
 Open Scope Q_scope.
 Import ListNotations.
 
@@ -517,6 +517,17 @@ Theorem C11_simplex_rank_invariant_rescaling :
   snd (sd_best (sd_run (QO sq ex pw) g n (sd_init (QO sq ex pw) g big p0 start))).
 Proof. exact sd_rank_invariant_rescaling. Qed.
 Print Assumptions C11_simplex_rank_invariant_rescaling.
+
+(* the reported solution IS the first vertex of the sorted simplex (stable sort: the earliest vertex with the least value): it is a
+   vertex and its value is the least vertex value — in dimension >= 1, under the proviso of C11_simplex_reports_objective *)
+Theorem C11_simplex_reported_is_best_vertex :
+  forall sq ex pw (f : list Q -> Q) (big : Q) (p0 start : list Q) (n : nat),
+  (1 <= length start)%nat -> (exists j, (j <= length start)%nat /\ f (sd_vertex (QO sq ex pw) start j) < big) ->
+  let st := sd_run (QO sq ex pw) f n (sd_init (QO sq ex pw) f big p0 start) in
+  sd_best st = hd (sd_dflt (QO sq ex pw)) (isort (QO sq ex pw) (sd_simplex st)) /\ In (sd_best st) (sd_simplex st) /\
+  fst (sd_best st) = sd_minval sq ex pw (sd_simplex st) /\ Forall (fun v => fst (sd_best st) <= fst v) (sd_simplex st).
+Proof. exact sd_reported_is_best_vertex. Qed.
+Print Assumptions C11_simplex_reported_is_best_vertex.
 
 (* ---- the hypotheses are satisfiable: the sphere in dimension 2 from (0,0), literal 1000; and the witness on f = 2000 *)
 Definition sphereQ (x : list Q) : Q := normsqr (QO idq idq pw0) x.
